@@ -325,11 +325,16 @@ class TraceFault:
 
     def __enter__(self):
         self._prev = sys.gettrace()
+        if os.environ.get("VERIF_COVERAGE") == "1":
+            # measuring line coverage of the SUT with coverage.py (which owns the
+            # trace hook): crash points are neither counted nor injected
+            return self
         sys.settrace(self._global)
         return self
 
     def __exit__(self, *exc):
-        sys.settrace(self._prev)
+        if os.environ.get("VERIF_COVERAGE") != "1":
+            sys.settrace(self._prev)
         return False
 
 
